@@ -720,8 +720,20 @@ func (f *Frame) rangeLoop(st *State, s *ast.RangeStmt, label string) []Outcome {
 		}
 		idxKey := envKey{nil, fmt.Sprintf("$idx%d", s.Pos())}
 		st.env[idxKey] = IntLit(0)
+		// kvcOuterIdx: the index of the nearest enclosing slice/int range loop (for invariants of nested loops)
+		outer := f.rangeIdx
+		f.rangeIdx = append(append([]envKey{}, outer...), idxKey)
+		defer func() { f.rangeIdx = outer }()
 		return f.runLoop(st, s, label, []ast.Node{s.Body},
-			func(h *State) map[string]Term { return map[string]Term{"kvcIdx": h.env[idxKey]} },
+			func(h *State) map[string]Term {
+				sp := map[string]Term{"kvcIdx": h.env[idxKey]}
+				if len(outer) > 0 {
+					if t, ok := h.env[outer[len(outer)-1]]; ok {
+						sp["kvcOuterIdx"] = t
+					}
+				}
+				return sp
+			},
 			func(h *State) Term {
 				i := h.env[idxKey]
 				return And(app(SBool, "<=", IntLit(0), i), Or(app(SBool, "<=", i, n), app(SBool, "<", n, IntLit(0))))
